@@ -203,7 +203,7 @@ fn backup_driver(name: &'static str, data_pack: u32, tree_pack: u32, idx_max: us
                 rustic_core::verif::limits::set_indexer_max_count(idx_max);
                 let repo = open_with(&bes)?.to_indexed_ids().map_err(|e| e.display_log())?;
                 gate.set_enabled(true);
-                let snap = backup_with(&repo, &MemSource::new("r", tree), "s0", T0 + 1000, &BackupOptions::default())
+                let snap = backup_with(&repo, &MemSource::new("r", tree), "s0", T0 + 1000, &vkit::rep::bopts())
                     .map_err(|e| e.display_log())?;
                 Ok(snap.tree.to_hex().to_string())
             })
@@ -220,7 +220,7 @@ fn prune_driver(name: &'static str, fast: bool) -> Driver {
     for v in 0..3 {
         let t = crate::c02::source(v);
         let repo = env.open_ids().expect("open");
-        _ = backup_with(&repo, &MemSource::new("r", t.clone()), &format!("s{v}"), T0 + 1000 + v as i64, &BackupOptions::default()).expect("backup");
+        _ = backup_with(&repo, &MemSource::new("r", t.clone()), &format!("s{v}"), T0 + 1000 + v as i64, &vkit::rep::bopts()).expect("backup");
         if v == 2 {
             _ = expect.insert(format!("s{v}"), model_tree("r", &t));
         }
@@ -257,7 +257,7 @@ fn copy_driver(name: &'static str) -> Driver {
     _ = src_env.init_with(config_with_packs(2, 400, 400)).expect("init");
     let tree = backup_source();
     let repo = src_env.open_ids().expect("open");
-    _ = backup_with(&repo, &MemSource::new("r", tree.clone()), "s0", T0 + 1000, &BackupOptions::default()).expect("backup");
+    _ = backup_with(&repo, &MemSource::new("r", tree.clone()), "s0", T0 + 1000, &vkit::rep::bopts()).expect("backup");
     let dst = Env::single();
     let mut cfg = config_with_packs(2, 10, 10);
     cfg.id = serde_json::from_value(json!("2222222222222222222222222222222222222222222222222222222222222222")).unwrap();
